@@ -19,7 +19,7 @@ impl Prop for C08 {
          18-byte boundaries; up to 20 KiB quick / 300 KiB thorough). Oracle: compress is Ok; an independent strict LZ10 reader accepts the output \
          (type 0x10, 24-bit LE length = input length, references 3..=18 long with 1 <= disp <= 4096 and disp <= bytes produced, exact termination, \
          no trailing bytes); the reference expansion, LZ10CompressionFormat::decompress and CompressionFormat::LZ10.decompress all return the input. \
-         Non-trivial: the emitted token list contains at least one back-reference, or the input is shorter than 3 bytes (boundary). Distinct = distinct case value."
+         One case in four is preceded on the same thread by decompress() of a foreign literal-only, zero-padded stream of the same bytes (outcome ignored): the oracle is unchanged. Non-trivial: the emitted token list contains at least one back-reference, or the input is shorter than 3 bytes (boundary). Distinct = distinct case value."
             .into()
     }
     fn assumptions() -> Vec<String> {
@@ -59,6 +59,14 @@ impl Prop for C08 {
 
     fn run(case: &LzInput, cx: &mut Cx) {
         let input = case.bytes();
+        // one case in four is preceded, on this thread, by an unrelated call: decompressing a foreign (literal-only, padded) stream of the same bytes.
+        // The compressor's output is a function of its input alone; the oracle below is the same with and without the earlier call.
+        let prior_call = crate::engine::prop::fnv(&input) % 4 == 0 && input.len() <= 200_000;
+        if prior_call {
+            let foreign = super::prior::foreign_stream(&input, false);
+            super::prior::quiet(|| LZ10CompressionFormat.decompress(&foreign).is_ok());
+            cx.label("after-decompressing-a-foreign-stream-of-the-same-bytes");
+        }
         let out = match cx.call(|| LZ10CompressionFormat.compress(&input)) {
             Some(Ok(o)) => o,
             Some(Err(e)) => {
